@@ -8,8 +8,15 @@
      - the tables pass the validator.
    Hence, for EVERY token sequence: the front-end driver never panics, accepts exactly
    the sentences of the grammar of record, and a rejection returns the first token after
-   which no valid file can continue (not too late; "not too early" as in C03 is decided
-   per input by the check's Earley oracle over the published grammar).
+   which no valid file can continue (not too late).
+   AND not too early (C09_syntax_error_is_neither_late_nor_early; Front/SelfHost.v): Kiki is
+   self-hosted, and the tables read from parser.rs on this run ARE the tables the model of
+   `generate` produces from the text of parser.kiki (C09_front_end_tables_are_generated_from_parser_kiki,
+   by vm_compute on the two regenerated texts).  So the theorems proved for the tables of every
+   accepted grammar apply to the front end without validator or hints, and since every symbol
+   of the published grammar is productive (checked by vm_compute, LR/Productive.v), what the front
+   end has consumed when it reports a syntax error is a prefix of some valid file.  The check's
+   Earley oracle over an independently written grammar still decides it per input.
    And for every source text: a syntax error of the front end carries exactly the byte span
    and the text of that token in the source (or the empty span at the end of the source when
    the input ended too early) — C09_parse_error_is_exact, from Lex/Spans.v.
@@ -21,7 +28,7 @@
    C02, C06, C10, C12 and C13 read the declarations from. *)
 From Coq Require Import List Arith.
 From Kiki Require Import Base.Ord Base.Chars Data LR.Driver LR.Grammar LR.Inv LR.Complete LR.Sound LR.ErrPos
-  LR.Validate LR.Term LR.ValidateProofs Lex.Model Ast.Validate Front.KikiGrammar Front.Parse Front.KikiValid Front.FrontProofs Front.Positions Front.Unparse.
+  LR.Validate LR.Term LR.ValidateProofs Lex.Model Ast.Validate Front.KikiGrammar Front.Parse Front.KikiValid Front.FrontProofs Front.Positions Front.Unparse Emit.Parser Pipeline Front.SelfHost.
 From Kiki Require Gen.KikiTables Gen.KikiAnn.
 Import ListNotations.
 
@@ -91,6 +98,20 @@ Theorem C09_front_end_is_the_inverse_of_a_printer : forall fuel src toks ast,
   front_parse fuel src toks = Ok ast -> map erase_tok toks = unparse ast.
 Proof. exact front_end_inverts_unparse. Qed.
 
+Theorem C09_front_end_tables_are_generated_from_parser_kiki :
+  exists out text, generate_full ho_id [] self_src = Ok (out, text) /\ ptable_of (go_file out) (go_table out) = Some kiki_ptable.
+Proof. exact front_end_tables_are_generated_from_parser_kiki. Qed.
+
+Theorem C09_syntax_error_is_neither_late_nor_early : forall fuel (w : list token) tok,
+  parse token_kind kiki_ptable fuel w = OReject tok ->
+  exists consumed rest,
+    w = consumed ++ rest /\ tok = hd_error rest /\
+    (forall x r z, rest = x :: r -> ~ sentence token_kind kiki_ptable (consumed ++ x :: z)) /\
+    (exists z, sentence token_kind kiki_ptable (consumed ++ z)).
+Proof. exact front_end_reject_exact. Qed.
+
+Print Assumptions C09_front_end_tables_are_generated_from_parser_kiki.
+Print Assumptions C09_syntax_error_is_neither_late_nor_early.
 Print Assumptions C09_front_end_is_the_inverse_of_a_printer.
 Print Assumptions C09_grammar_of_record.
 Print Assumptions C09_front_end_terminates.
